@@ -6,6 +6,7 @@ import (
 	"context"
 	"encoding/json"
 	"fmt"
+	"net"
 	"os"
 	"sync"
 	"time"
@@ -269,6 +270,15 @@ func runC17(r *ev.Run, rep *ev.ReplayDoc) ev.Summary {
 		Exhaustive: true,
 	}
 	if rep != nil {
+		var ic c17ImplicitCase
+		if json.Unmarshal(rep.Case, &ic) == nil && ic.Implicit {
+			_, verb, blocked, _, _, _ := runC17Implicit(ic, 12*time.Second)
+			if blocked {
+				r.Violate(ev.Violation{Key: "blocked-implicit-tls:" + ic.Call + ":" + verb, What: "still blocked after 12 s", Case: ic})
+			}
+			r.Eval("replay", true)
+			return sum
+		}
 		var c c17Case
 		if err := json.Unmarshal(rep.Case, &c); err != nil {
 			r.HarnessError("bad replay case: " + err.Error())
@@ -303,6 +313,166 @@ func runC17(r *ev.Run, rep *ev.ReplayDoc) ev.Summary {
 			r.Sample(cases[i])
 		}
 	})
+	if !ev.RaceSlice() {
+		runC17ImplicitAll(r)
+	}
 	r.CollectRaceLogs()
 	return sum
+}
+
+// ---- implicit TLS (the library's own tls.Dialer over real loopback TCP) ----------------------
+// No tracking conn can be injected here, so the verdict rests on the generous watchdog alone; to
+// keep load from producing a false alarm a hang only counts if it reproduces when re-run alone
+// with a doubled watchdog.
+
+type c17ImplicitCase struct {
+	Call      string        `json:"call"` // dial | dialandsend | send
+	Handshake bool          `json:"stall_in_handshake,omitempty"`
+	Script    []scriptEntry `json:"script,omitempty"`
+	TimeoutMS int           `json:"timeout_ms"`
+	Implicit  bool          `json:"implicit_tls"`
+}
+
+// runC17Implicit returns (steps, stallVerb, blocked).
+func runC17Implicit(c c17ImplicitCase, watchdog time.Duration) (steps int, stallVerb string, blocked bool, callErr error, elapsed time.Duration, harness string) {
+	tm := gen.TLS()
+	ln, err := net.Listen("tcp", "127.0.0.1:0")
+	if err != nil {
+		return 0, "", false, nil, 0, "listen: " + err.Error()
+	}
+	defer ln.Close()
+	port := ln.Addr().(*net.TCPAddr).Port
+	stop := make(chan struct{})
+	var sess *refsmtp.Session
+	var smu sync.Mutex
+	go func() {
+		conn, err := ln.Accept()
+		if err != nil {
+			return
+		}
+		if c.Handshake {
+			<-stop // never answer the ClientHello
+			_ = conn.Close()
+			return
+		}
+		s := refsmtp.ServeImplicitTLS(conn, &refsmtp.Config{Decide: scriptDecide(c.Script), AllowUTF8: true, TLS: gen.ServerTLS(tm.Good, 0, 0)}, 0)
+		smu.Lock()
+		sess = s
+		smu.Unlock()
+	}()
+	timeout := time.Duration(c.TimeoutMS) * time.Millisecond
+	cl, err := mail.NewClient("localhost", mail.WithPort(port), mail.WithSSL(), mail.WithTLSConfig(gen.ClientTLS("localhost", 0, 0)), mail.WithTimeout(timeout), mail.WithHELO("client.verif.example"))
+	if err != nil {
+		return 0, "", false, nil, 0, "NewClient: " + err.Error()
+	}
+	msg, _ := simpleMsg("c17i", "m0@sender.example", []string{"r0@rcpt.example"}, "quoted-printable", "body\r\n")
+	done := make(chan struct{})
+	var start time.Time
+	setupFailed := false
+	go func() {
+		defer close(done)
+		defer func() { _ = recover() }()
+		ctx := context.Background()
+		switch c.Call {
+		case "dial":
+			start = time.Now()
+			callErr = cl.DialWithContext(ctx)
+		case "dialandsend":
+			start = time.Now()
+			callErr = cl.DialAndSendWithContext(ctx, msg)
+		case "send":
+			if err := cl.DialWithContext(ctx); err != nil {
+				setupFailed = true
+				return
+			}
+			start = time.Now()
+			callErr = cl.Send(msg)
+		}
+		elapsed = time.Since(start)
+	}()
+	select {
+	case <-done:
+	case <-time.After(watchdog):
+		blocked = true
+	}
+	close(stop)
+	smu.Lock()
+	s := sess
+	smu.Unlock()
+	if s != nil {
+		cmds, _, _ := s.Snapshot()
+		for _, cr := range cmds {
+			if cr.Index+1 > steps {
+				steps = cr.Index + 1
+			}
+			if cr.Stalled {
+				stallVerb = cr.Verb
+			}
+		}
+		s.Stop()
+	}
+	if c.Handshake {
+		stallVerb = "TLS-HANDSHAKE"
+	}
+	if blocked {
+		_ = ln.Close()
+		select {
+		case <-done:
+		case <-time.After(15 * time.Second):
+		}
+	}
+	if setupFailed {
+		stallVerb = ""
+	}
+	return
+}
+
+func runC17ImplicitAll(r *ev.Run) {
+	var cases []c17ImplicitCase
+	for _, call := range []string{"dial", "dialandsend", "send"} {
+		steps, _, _, _, _, h := runC17Implicit(c17ImplicitCase{Call: call, TimeoutMS: 300}, 10*time.Second)
+		if h != "" {
+			r.HarnessError("C17 implicit: " + h)
+			return
+		}
+		cases = append(cases, c17ImplicitCase{Call: call, Handshake: true, TimeoutMS: 300, Implicit: true})
+		for pos := 0; pos < steps; pos++ {
+			cases = append(cases, c17ImplicitCase{Call: call, Script: []scriptEntry{{Index: pos, Kind: "stall"}}, TimeoutMS: 300, Implicit: true})
+		}
+	}
+	var mu sync.Mutex
+	var suspects []c17ImplicitCase
+	watchdog := 6300*time.Millisecond + 6*time.Second // as for STARTTLS: crypto/tls close_notify may take 5 s
+	r.ParallelN(48, len(cases), func(i int) {
+		_, verb, blocked, err, el, _ := runC17Implicit(cases[i], watchdog)
+		if verb == "" {
+			r.Count("stall_in_setup_phase", 1)
+			return
+		}
+		r.Count("stalls_executed", 1)
+		r.Count("implicit_tls_stalls_executed", 1)
+		r.Seen("stall_points", "implicit:"+cases[i].Call+":"+verb)
+		r.Eval("implicit|"+cases[i].Call+"|"+verb+scriptString(cases[i].Script), true)
+		if blocked {
+			mu.Lock()
+			suspects = append(suspects, cases[i])
+			mu.Unlock()
+			return
+		}
+		r.Max("max_return_ms", el.Milliseconds())
+		if err == nil {
+			r.Violate(ev.Violation{Key: "returned-nil-on-stall:implicit:" + cases[i].Call + ":" + verb, What: "call returned nil although the server stalled", Case: cases[i]})
+		} else {
+			r.Count("returned_with_error_in_time", 1)
+		}
+	})
+	// re-run the suspects one at a time with a doubled watchdog
+	for _, c := range suspects {
+		_, verb, blocked, _, _, _ := runC17Implicit(c, 2*watchdog)
+		if blocked {
+			r.Violate(ev.Violation{Key: "blocked-implicit-tls:" + c.Call + ":" + verb, What: fmt.Sprintf("%s over implicit TLS (timeout %d ms) was still blocked %v after it started with the server silent at %s (reproduced when re-run alone)", c.Call, c.TimeoutMS, 2*watchdog, verb), Case: c})
+		} else {
+			r.Inconclusive(fmt.Sprintf("C17 implicit %s stalled at %s exceeded the watchdog once but not when re-run alone", c.Call, verb))
+		}
+	}
 }
